@@ -1,28 +1,42 @@
-/-! Prototype for C16: sector-atomic torn tail. Files are byte functions (zero beyond what was written — the segment is
-    preallocated); frames are an 8-byte header plus an 8-byte-aligned body; record validation (unmarshal + rolling CRC)
-    is abstract. After a crash that reverts any subset of the 512-byte sectors of the unsynced tail, decoding returns
-    the synced records, then a whole-record prefix of the unsynced ones, and ends with a clean EOF or a *torn* verdict
-    (repairable) — provided no damaged record still validates (`NoCollision`). Core Lean only. -/
+/-! C16: sector-atomic torn tail. Files are byte functions (zero beyond what was written — the segment is
+    preallocated); frames are 8 header bytes plus an 8-byte-aligned body; the header decoder (`unhdr`: the announced
+    body length, record bytes plus padding) and record validation (`valid`: unmarshal of the record bytes the header
+    announces + rolling CRC) are abstract, so that the real length field — which encodes record bytes and padding
+    separately — fits (instantiated in Props/C16Torn.lean). After a crash that reverts any subset of the 512-byte
+    sectors of the unsynced tail, decoding returns the synced records, then a whole-record prefix of the unsynced ones,
+    and ends with a clean EOF or a *torn* verdict (repairable) — provided no unsynced record still validates, in the CRC
+    state actually reached, after a non-trivial subset of its sector chunks was zeroed (`NoColl`). The decoder loop
+    mirrors `decodeRecord` of File.lean on one file of a given size (end of file, short header, max-entry-size test,
+    short body, validation with a torn / corrupt / fatal verdict), so that Props/C16TornFile.lean can transfer the
+    theorem to the executable reader. Core Lean only. -/
 namespace WalTorn
 
 abbrev File := Nat → Nat          -- offset ↦ byte
 
 def readAt (f : File) (o n : Nat) : List Nat := (List.range n).map fun i => f (o + i)
 
+/-- result of validating one frame: accepted with the next state; rejected (then classified torn or corrupt by
+    `isTornEntry`); rejected fatally (a CRC record contradicting the rolling CRC: not subject to the torn test) -/
+inductive VRes (ρ σ : Type)
+| ok (r : ρ) (st : σ)
+| bad
+| fatal
+deriving DecidableEq
+
 /-- abstract header codec and record validation, with the laws the proof uses (hypotheses, not axioms) -/
 structure Codec (ρ σ : Type) where
-  hdr    : Nat → List Nat
-  unhdr  : List Nat → Nat
-  valid  : σ → List Nat → Option (ρ × σ)
-  hdr_len   : ∀ n, (hdr n).length = 8
-  unhdr_hdr : ∀ n, unhdr (hdr n) = n
-  unhdr_zero : unhdr (List.replicate 8 0) = 0
+  /-- body length (record bytes + padding) announced by the 8 header bytes; `none` = zero length field -/
+  unhdr  : List Nat → Option Nat
+  /-- state, header bytes, body bytes ↦ record and next state, or a verdict -/
+  valid  : σ → List Nat → List Nat → VRes ρ σ
+  unhdr_zero : unhdr (List.replicate 8 0) = none
 
 structure Frame (ρ : Type) where
   val  : ρ
+  hd   : List Nat
   body : List Nat
 
-inductive Ending | eof | torn | corrupt
+inductive Ending | eof | torn | corrupt | fatal
 deriving DecidableEq
 
 /-- `isTornEntry`: some sector-aligned chunk of the body (chunked relative to its file offset) is entirely zero -/
@@ -32,37 +46,66 @@ def isTorn (off : Nat) (b : List Nat) : Prop :=
 variable {ρ σ : Type}
 
 /-- the decoder loop (`decodeRecord` + the caller's loop), with fuel = an upper bound on the number of frames -/
-noncomputable def decode (C : Codec ρ σ) (f : File) : Nat → Nat → σ → List ρ × Ending × Nat
+noncomputable def decode (C : Codec ρ σ) (f : File) (size : Nat) : Nat → Nat → σ → List ρ × Ending × Nat
 | 0, o, _ => ([], .eof, o)
 | fuel+1, o, st =>
-  let n := C.unhdr (readAt f o 8)
-  if n = 0 then ([], .eof, o)
+  if size ≤ o then ([], .eof, o)                       -- end of file
+  else if size < o + 8 then ([], .torn, o)             -- 1..7 bytes left: io.ErrUnexpectedEOF
   else
-    let b := readAt f (o + 8) n
-    match C.valid st b with
-    | some (r, st') =>
-      let res := decode C f fuel (o + 8 + n) st'
-      (r :: res.1, res.2.1, res.2.2)
-    | none => open Classical in if isTorn (o + 8) b then ([], .torn, o) else ([], .corrupt, o)
+    let h := readAt f o 8
+    match C.unhdr h with
+    | none => ([], .eof, o)                            -- zero length field: end of the written part
+    | some n =>
+      if size < n + o then ([], .corrupt, o)           -- the max-entry-size test
+      else if size < o + 8 + n then ([], .torn, o)     -- io.ReadFull comes up short: io.ErrUnexpectedEOF
+      else
+        let b := readAt f (o + 8) n
+        match C.valid st h b with
+        | .ok r st' =>
+          let res := decode C f size fuel (o + 8 + n) st'
+          (r :: res.1, res.2.1, res.2.2)
+        | .fatal => ([], .fatal, o)
+        | .bad => open Classical in if isTorn (o + 8) b then ([], .torn, o) else ([], .corrupt, o)
 
 /-- writing a list of frames starting at offset o into a file -/
 def writeAt (f : File) (o : Nat) (bytes : List Nat) : File := fun x => if o ≤ x ∧ x < o + bytes.length then bytes.getD (x - o) 0 else f x
 
 def layout (C : Codec ρ σ) : List (Frame ρ) → Nat → File → File
 | [], _, f => f
-| fr :: rest, o, f => layout C rest (o + 8 + fr.body.length) (writeAt (writeAt f o (C.hdr fr.body.length)) (o + 8) fr.body)
+| fr :: rest, o, f => layout C rest (o + 8 + fr.body.length) (writeAt (writeAt f o fr.hd) (o + 8) fr.body)
 
 def endOff : List (Frame ρ) → Nat → Nat
 | [], o => o
 | fr :: rest, o => endOff rest (o + 8 + fr.body.length)
 
-/-- frames are well formed: non-empty bodies, padded to 8 bytes -/
-def WF (fs : List (Frame ρ)) : Prop := ∀ fr ∈ fs, 0 < fr.body.length ∧ fr.body.length % 8 = 0
+/-- frames are well formed: 8 header bytes announcing the body length; non-empty bodies, padded to 8 bytes -/
+def WF (C : Codec ρ σ) (fs : List (Frame ρ)) : Prop :=
+  ∀ fr ∈ fs, (0 < fr.body.length ∧ fr.body.length % 8 = 0) ∧ fr.hd.length = 8 ∧ C.unhdr fr.hd = some fr.body.length
 
 /-- the records validate in sequence from state st (rolling CRC chain) -/
 def Chain (C : Codec ρ σ) : List (Frame ρ) → σ → Prop
 | [], _ => True
-| fr :: rest, st => ∃ st', C.valid st fr.body = some (fr.val, st') ∧ Chain C rest st'
+| fr :: rest, st => ∃ st', C.valid st fr.hd fr.body = .ok fr.val st' ∧ Chain C rest st'
+
+/-- the records validate in sequence from state `st` and leave state `st'` -/
+def ChainTo (C : Codec ρ σ) : List (Frame ρ) → σ → σ → Prop
+| [], st, st' => st = st'
+| fr :: rest, st, st' => ∃ st1, C.valid st fr.hd fr.body = .ok fr.val st1 ∧ ChainTo C rest st1 st'
+
+/-- `b'` is the body `b` (lying at file offset `off`) after some of the sectors it touches were reverted to zeros -/
+def Reverted (off : Nat) (b b' : List Nat) : Prop :=
+  b'.length = b.length ∧
+  ∀ q, (∀ i, i < b.length → (off + i) / 512 = q → b'.getD i 0 = b.getD i 0) ∨
+       (∀ i, i < b.length → (off + i) / 512 = q → b'.getD i 0 = 0)
+
+/-- **NoCollision**, threaded along the frames `fs` written from file offset `o` in state `st`: no frame, in the state
+    actually reached, still validates (under its intact header) — nor is rejected fatally — after a non-trivial
+    subset of its sector chunks was zeroed. For a 32-bit CRC this is a genuine hypothesis (it can fail when the frame spans several sectors). -/
+def NoColl (C : Codec ρ σ) : List (Frame ρ) → Nat → σ → Prop
+| [], _, _ => True
+| fr :: rest, o, st =>
+    (∀ b', Reverted (o + 8) fr.body b' → b' ≠ fr.body → C.valid st fr.hd b' = .bad) ∧
+    (∀ st', C.valid st fr.hd fr.body = .ok fr.val st' → NoColl C rest (o + 8 + fr.body.length) st')
 
 /-- crash: below P nothing changes; every sector is, above P, either as written or zero -/
 def Crash (img c : File) (P : Nat) : Prop :=
@@ -89,18 +132,19 @@ theorem layout_below (C : Codec ρ σ) (fs : List (Frame ρ)) (o : Nat) (f : Fil
     simp only [layout]
     rw [ih _ _ (by omega), writeAt_out _ _ _ _ (Or.inl (by omega)), writeAt_out _ _ _ _ (Or.inl h)]
 
-theorem layout_above (C : Codec ρ σ) (fs : List (Frame ρ)) (o : Nat) (f : File) (x : Nat) (h : endOff fs o ≤ x) :
-    layout C fs o f x = f x := by
+theorem layout_above (C : Codec ρ σ) (fs : List (Frame ρ)) (o : Nat) (f : File) (x : Nat) (h : endOff fs o ≤ x)
+    (hhd : ∀ fr ∈ fs, fr.hd.length = 8) : layout C fs o f x = f x := by
   induction fs generalizing o f with
   | nil => rfl
   | cons fr rest ih =>
+    have hl : fr.hd.length = 8 ∧ ∀ x ∈ rest, x.hd.length = 8 := ⟨hhd fr (by simp), fun x hx => hhd x (by simp [hx])⟩
     simp only [layout, endOff] at h ⊢
     have hmono : ∀ (l : List (Frame ρ)) (o' : Nat), o' ≤ endOff l o' := by
       intro l; induction l with
       | nil => intro o'; exact Nat.le_refl _
       | cons a r ihr => intro o'; simp only [endOff]; have := ihr (o' + 8 + a.body.length); omega
     have := hmono rest (o + 8 + fr.body.length)
-    rw [ih _ _ h, writeAt_out _ _ _ _ (Or.inr (by omega)), writeAt_out _ _ _ _ (Or.inr (by rw [C.hdr_len]; omega))]
+    rw [ih _ _ h hl.2, writeAt_out _ _ _ _ (Or.inr (by omega)), writeAt_out _ _ _ _ (Or.inr (by rw [hl.1]; omega))]
 
 theorem readAt_ext (f g : File) (o n : Nat) (h : ∀ i, i < n → f (o + i) = g (o + i)) : readAt f o n = readAt g o n := by
   unfold readAt
@@ -116,17 +160,17 @@ theorem readAt_writeAt (f : File) (o : Nat) (bs : List Nat) : readAt (writeAt f 
     simp [List.getD_eq_getElem?_getD, h2]
 
 /-- the first frame of a layout reads back as its header and body -/
-theorem layout_head (C : Codec ρ σ) (fr : Frame ρ) (rest : List (Frame ρ)) (o : Nat) (f : File) :
-    readAt (layout C (fr :: rest) o f) o 8 = C.hdr fr.body.length ∧
+theorem layout_head (C : Codec ρ σ) (fr : Frame ρ) (rest : List (Frame ρ)) (o : Nat) (f : File) (hl : fr.hd.length = 8) :
+    readAt (layout C (fr :: rest) o f) o 8 = fr.hd ∧
     readAt (layout C (fr :: rest) o f) (o + 8) fr.body.length = fr.body := by
   simp only [layout]
   constructor
-  · rw [readAt_ext _ (writeAt f o (C.hdr fr.body.length)) o 8]
-    · have := readAt_writeAt f o (C.hdr fr.body.length)
-      rwa [C.hdr_len] at this
+  · rw [readAt_ext _ (writeAt f o fr.hd) o 8]
+    · have := readAt_writeAt f o fr.hd
+      rwa [hl] at this
     · intro i hi
       rw [layout_below _ _ _ _ _ (by omega), writeAt_out _ _ _ _ (Or.inl (by omega))]
-  · rw [readAt_ext _ (writeAt (writeAt f o (C.hdr fr.body.length)) (o + 8) fr.body) (o + 8) fr.body.length]
+  · rw [readAt_ext _ (writeAt (writeAt f o fr.hd) (o + 8) fr.body) (o + 8) fr.body.length]
     · exact readAt_writeAt _ _ _
     · intro i hi
       rw [layout_below _ _ _ _ _ (by omega)]
@@ -142,33 +186,39 @@ theorem endOff_mono (l : List (Frame ρ)) (o : Nat) : o ≤ endOff l o := by
   | cons a r ih => simp only [endOff]; have := ih (o + 8 + a.body.length); omega
 
 /-- any frame of a layout reads back at its offset -/
-theorem frame_at (C : Codec ρ σ) (pre : List (Frame ρ)) (fr : Frame ρ) (post : List (Frame ρ)) (o : Nat) (f : File) :
-    readAt (layout C (pre ++ fr :: post) o f) (endOff pre o) 8 = C.hdr fr.body.length ∧
+theorem frame_at (C : Codec ρ σ) (pre : List (Frame ρ)) (fr : Frame ρ) (post : List (Frame ρ)) (o : Nat) (f : File)
+    (hl : fr.hd.length = 8) :
+    readAt (layout C (pre ++ fr :: post) o f) (endOff pre o) 8 = fr.hd ∧
     readAt (layout C (pre ++ fr :: post) o f) (endOff pre o + 8) fr.body.length = fr.body := by
   induction pre generalizing o f with
-  | nil => exact layout_head C fr post o f
+  | nil => exact layout_head C fr post o f hl
   | cons a r ih => simp only [List.cons_append, layout, endOff]; exact ih _ _
 
-theorem endOff_aligned (l : List (Frame ρ)) (o : Nat) (ho : o % 8 = 0) (hwf : WF l) : endOff l o % 8 = 0 := by
+theorem endOff_aligned (C : Codec ρ σ) (l : List (Frame ρ)) (o : Nat) (ho : o % 8 = 0) (hwf : WF C l) : endOff l o % 8 = 0 := by
   induction l generalizing o with
   | nil => exact ho
   | cons a r ih =>
     simp only [endOff]
-    have := hwf a (by simp)
+    have := (hwf a (by simp)).1
     exact ih _ (by omega) (fun x hx => hwf x (by simp [hx]))
 
 /-- one intact frame is consumed -/
-theorem decode_intact (C : Codec ρ σ) (c : File) (fuel o : Nat) (st st' : σ) (fr : Frame ρ)
-    (hpos : 0 < fr.body.length)
-    (hh : readAt c o 8 = C.hdr fr.body.length) (hb : readAt c (o + 8) fr.body.length = fr.body)
-    (hv : C.valid st fr.body = some (fr.val, st')) :
-    decode C c (fuel + 1) o st =
-      (fr.val :: (decode C c fuel (o + 8 + fr.body.length) st').1, (decode C c fuel (o + 8 + fr.body.length) st').2.1,
-        (decode C c fuel (o + 8 + fr.body.length) st').2.2) := by
+theorem decode_intact (C : Codec ρ σ) (c : File) (size fuel o : Nat) (st st' : σ) (fr : Frame ρ)
+    (hsz : o + 8 + fr.body.length ≤ size) (hun : C.unhdr fr.hd = some fr.body.length)
+    (hh : readAt c o 8 = fr.hd) (hb : readAt c (o + 8) fr.body.length = fr.body)
+    (hv : C.valid st fr.hd fr.body = .ok fr.val st') :
+    decode C c size (fuel + 1) o st =
+      (fr.val :: (decode C c size fuel (o + 8 + fr.body.length) st').1,
+        (decode C c size fuel (o + 8 + fr.body.length) st').2.1,
+        (decode C c size fuel (o + 8 + fr.body.length) st').2.2) := by
   rw [decode]
-  simp only [hh, C.unhdr_hdr]
-  have : ¬ fr.body.length = 0 := by omega
-  simp only [this, if_false, hb, hv]
+  rw [if_neg (by omega), if_neg (by omega)]
+  simp only [hh, hun]
+  rw [if_neg (by omega), if_neg (by omega)]
+  simp only [hb, hv]
+
+theorem readAt_getD (f : File) (o n i : Nat) (h : i < n) : (readAt f o n).getD i 0 = f (o + i) := by
+  simp [readAt, List.getD_eq_getElem?_getD, h]
 
 theorem readAt_zero (f : File) (o n : Nat) (h : ∀ i, i < n → f (o + i) = 0) : readAt f o n = List.replicate n 0 := by
   rw [List.eq_replicate_iff]
@@ -182,13 +232,13 @@ theorem readAt_zero (f : File) (o n : Nat) (h : ∀ i, i < n → f (o + i) = 0) 
 theorem hdr_one_sector (o i : Nat) (ho : o % 8 = 0) (hi : i < 8) : (o + i) / 512 = o / 512 := by omega
 
 /-- the unsynced tail after a crash -/
-theorem tail_after_crash (C : Codec ρ σ) (all : List (Frame ρ)) (c : File) (P : Nat)
-    (hcr : Crash (layout C all 0 (fun _ => 0)) c P) (hwf : WF all) :
+theorem tail_after_crash (C : Codec ρ σ) (all : List (Frame ρ)) (c : File) (P size : Nat)
+    (hcr : Crash (layout C all 0 (fun _ => 0)) c P) (hwf : WF C all) (hsize : endOff all 0 + 8 ≤ size) :
     ∀ (u pre : List (Frame ρ)) (st : σ) (fuel : Nat), all = pre ++ u → P ≤ endOff pre 0 → Chain C u st → u.length < fuel →
-      (∀ fr ∈ u, ∀ st b', b'.length = fr.body.length → b' ≠ fr.body → C.valid st b' = none) →
-      ∃ p rest, u = p ++ rest ∧ (decode C c fuel (endOff pre 0) st).1 = p.map (·.val) ∧
-        ((decode C c fuel (endOff pre 0) st).2.1 = .eof ∨ (decode C c fuel (endOff pre 0) st).2.1 = .torn) ∧
-        (decode C c fuel (endOff pre 0) st).2.2 = endOff (pre ++ p) 0 := by
+      NoColl C u (endOff pre 0) st →
+      ∃ p rest, u = p ++ rest ∧ (decode C c size fuel (endOff pre 0) st).1 = p.map (·.val) ∧
+        ((decode C c size fuel (endOff pre 0) st).2.1 = .eof ∨ (decode C c size fuel (endOff pre 0) st).2.1 = .torn) ∧
+        (decode C c size fuel (endOff pre 0) st).2.2 = endOff (pre ++ p) 0 := by
   intro u
   induction u with
   | nil =>
@@ -200,40 +250,47 @@ theorem tail_after_crash (C : Codec ρ σ) (all : List (Frame ρ)) (c : File) (P
       -- beyond everything written the image is zero, and so is the crashed file
       have hz : readAt c (endOff pre 0) 8 = List.replicate 8 0 := by
         have himg : ∀ x, endOff pre 0 ≤ x → layout C all 0 (fun _ => 0) x = 0 := by
-          intro x hx; rw [layout_above]; rw [hall]; simpa using hx
+          intro x hx; rw [layout_above]
+          · rw [hall]; simpa using hx
+          · intro fr hfr; exact (hwf fr hfr).2.1
         have hc : ∀ x, endOff pre 0 ≤ x → c x = 0 := by
           intro x hx
           rcases hcr.2 (x / 512) with k | z
           · rw [k x rfl (by omega)]; exact himg x hx
           · exact z x rfl (by omega)
         exact readAt_zero _ _ _ (fun i _ => hc _ (Nat.le_add_right _ _))
-      rw [decode]; simp only [hz, C.unhdr_zero, if_true]
+      have hle : endOff pre 0 ≤ endOff all 0 := by rw [hall]; simp
+      rw [decode, if_neg (by omega), if_neg (by omega)]; simp only [hz, C.unhdr_zero]
       simp
   | cons fr rest ih =>
     intro pre st fuel hall hP hch hf hnc
     obtain ⟨st', hv, hch'⟩ := hch
     have hfr := hwf fr (by rw [hall]; simp)
-    have hal : endOff pre 0 % 8 = 0 := endOff_aligned pre 0 rfl (fun x hx => hwf x (by rw [hall]; simp [hx]))
-    obtain ⟨ih1, ih2⟩ := frame_at C pre fr rest 0 (fun _ => 0)
+    have hal : endOff pre 0 % 8 = 0 := endOff_aligned C pre 0 rfl (fun x hx => hwf x (by rw [hall]; simp [hx]))
+    obtain ⟨ih1, ih2⟩ := frame_at C pre fr rest 0 (fun _ => 0) hfr.2.1
+    have hun := hfr.2.2
+    replace hfr := hfr.1
     rw [← hall] at ih1 ih2
     obtain ⟨o, ho⟩ : ∃ o, o = endOff pre 0 := ⟨_, rfl⟩
     obtain ⟨n, hn⟩ : ∃ n, n = fr.body.length := ⟨_, rfl⟩
-    rw [← ho] at hal ih1 ih2 hP ⊢
-    rw [← hn] at ih1 ih2 hfr
+    have hle : endOff pre 0 + 8 + fr.body.length ≤ endOff all 0 := by
+      rw [hall, endOff_append]; simp only [endOff]; exact endOff_mono rest _
+    rw [← ho] at hal ih1 ih2 hP hnc hle ⊢
+    rw [← hn] at ih2 hfr hun hle
     cases fuel with
     | zero => simp at hf
     | succ fuel =>
     -- header: one sector, either as written or zero
     rcases hcr.2 (o / 512) with keep | zero
-    · have hh : readAt c o 8 = C.hdr n := by
+    · have hh : readAt c o 8 = fr.hd := by
         rw [← ih1]; apply readAt_ext; intro i hi
         exact keep _ (hdr_one_sector o i hal hi) (by omega)
       -- body: compare with what was written
       by_cases hb : readAt c (o + 8) n = fr.body
-      · rw [hn] at hh hb
-        rw [decode_intact C c fuel o st st' fr (by omega) hh hb hv]
+      · rw [hn] at hb hun hle
+        rw [decode_intact C c size fuel o st st' fr (by omega) hun hh hb hv]
         have := ih (pre ++ [fr]) st' fuel (by simp [hall]) (by rw [endOff_append]; simp only [endOff]; omega) hch'
-          (by simp at hf; omega) (fun x hx => hnc x (by simp [hx]))
+          (by simp at hf; omega) (by rw [endOff_append]; simp only [endOff, ← ho]; exact hnc.2 st' hv)
         rw [endOff_append] at this
         simp only [endOff, ← ho] at this
         obtain ⟨p, rest', e1, e2, e3, e4⟩ := this
@@ -242,7 +299,17 @@ theorem tail_after_crash (C : Codec ρ σ) (all : List (Frame ρ)) (c : File) (P
       · -- damaged body: does not validate (NoCollision) and has an all-zero sector chunk ⇒ torn
         refine ⟨[], fr :: rest, rfl, ?_⟩
         have hlen : (readAt c (o + 8) n).length = n := by simp [readAt]
-        have hnv := hnc fr (by simp) st (readAt c (o + 8) n) (by rw [hlen, hn]) hb
+        have hrev : Reverted (o + 8) fr.body (readAt c (o + 8) n) := by
+          refine ⟨by rw [hlen, hn], ?_⟩
+          intro q
+          rcases hcr.2 q with k | z
+          · left; intro i hi hq
+            rw [← hn] at hi
+            rw [readAt_getD _ _ _ _ hi, k _ hq (by omega), ← readAt_getD (layout C all 0 (fun _ => 0)) (o + 8) n i hi, ih2]
+          · right; intro i hi hq
+            rw [← hn] at hi
+            rw [readAt_getD _ _ _ _ hi]; exact z _ hq (by omega)
+        have hnv := hnc.1 (readAt c (o + 8) n) hrev hb
         have htorn : isTorn (o + 8) (readAt c (o + 8) n) := by
           -- some position differs from what was written; its sector was reverted
           have : ∃ i, i < n ∧ c (o + 8 + i) ≠ layout C all 0 (fun _ => 0) (o + 8 + i) := by
@@ -260,15 +327,16 @@ theorem tail_after_crash (C : Codec ρ σ) (all : List (Frame ρ)) (c : File) (P
             rw [hlen] at hj
             simp [readAt, List.getD_eq_getElem?_getD, hj]
             exact z _ hq (by omega)
-        rw [decode]
-        have hn0 : ¬ n = 0 := by omega
-        simp [hh, C.unhdr_hdr, hn0, hnv, htorn]
+        rw [decode, if_neg (by omega), if_neg (by omega)]
+        simp only [hh, hun]
+        rw [if_neg (by omega), if_neg (by omega)]
+        simp [hnv, htorn]
         exact ho
     · -- header sector reverted: length reads as zero ⇒ clean EOF
       refine ⟨[], fr :: rest, rfl, ?_⟩
       have hz : readAt c o 8 = List.replicate 8 0 :=
         readAt_zero _ _ _ (fun i hi => zero _ (hdr_one_sector o i hal hi) (by omega))
-      rw [decode]; simp only [hz, C.unhdr_zero, if_true]
+      rw [decode, if_neg (by omega), if_neg (by omega)]; simp only [hz, C.unhdr_zero]
       simp [ho]
 
 #print axioms tail_after_crash
@@ -276,40 +344,43 @@ theorem tail_after_crash (C : Codec ρ σ) (all : List (Frame ρ)) (c : File) (P
 /-- **C16 (torn tail)**: everything whose Save had completed (the synced frames) is returned, in order and unmodified,
     possibly followed by whole later records, never by anything else; the decoder stops with a clean EOF or a torn
     verdict at the end of the last accepted record — the offset `Repair` truncates to. -/
-theorem torn_tail (C : Codec ρ σ) (all : List (Frame ρ)) (c : File) (P : Nat)
-    (hcr : Crash (layout C all 0 (fun _ => 0)) c P) (hwf : WF all) (u : List (Frame ρ))
-    (hnc : ∀ fr ∈ u, ∀ st b', b'.length = fr.body.length → b' ≠ fr.body → C.valid st b' = none) :
+theorem torn_tail (C : Codec ρ σ) (all : List (Frame ρ)) (c : File) (P size : Nat)
+    (hcr : Crash (layout C all 0 (fun _ => 0)) c P) (hwf : WF C all) (hsize : endOff all 0 + 8 ≤ size)
+    (u : List (Frame ρ)) :
     ∀ (s pre : List (Frame ρ)) (st : σ) (fuel : Nat), all = pre ++ s ++ u → endOff (pre ++ s) 0 = P →
-      Chain C (s ++ u) st → (s ++ u).length < fuel →
-      ∃ p rest, u = p ++ rest ∧ (decode C c fuel (endOff pre 0) st).1 = (s ++ p).map (·.val) ∧
-        ((decode C c fuel (endOff pre 0) st).2.1 = .eof ∨ (decode C c fuel (endOff pre 0) st).2.1 = .torn) ∧
-        (decode C c fuel (endOff pre 0) st).2.2 = endOff (pre ++ s ++ p) 0 := by
+      Chain C (s ++ u) st → (s ++ u).length < fuel → (∀ stu, ChainTo C s st stu → NoColl C u P stu) →
+      ∃ p rest, u = p ++ rest ∧ (decode C c size fuel (endOff pre 0) st).1 = (s ++ p).map (·.val) ∧
+        ((decode C c size fuel (endOff pre 0) st).2.1 = .eof ∨ (decode C c size fuel (endOff pre 0) st).2.1 = .torn) ∧
+        (decode C c size fuel (endOff pre 0) st).2.2 = endOff (pre ++ s ++ p) 0 := by
   intro s
   induction s with
   | nil =>
-    intro pre st fuel hall hP hch hf
+    intro pre st fuel hall hP hch hf hnc
     simp only [List.append_nil, List.nil_append] at hall hP hch hf ⊢
-    exact tail_after_crash C all c P hcr hwf u pre st fuel hall (by omega) hch hf hnc
+    exact tail_after_crash C all c P size hcr hwf hsize u pre st fuel hall (by omega) hch hf (by rw [hP]; exact hnc st rfl)
   | cons fr s' ih =>
-    intro pre st fuel hall hP hch hf
+    intro pre st fuel hall hP hch hf hnc
     obtain ⟨st', hv, hch'⟩ := hch
     have hfr := hwf fr (by rw [hall]; simp)
-    obtain ⟨h1, h2⟩ := frame_at C pre fr (s' ++ u) 0 (fun _ => 0)
+    obtain ⟨h1, h2⟩ := frame_at C pre fr (s' ++ u) 0 (fun _ => 0) hfr.2.1
     have hall' : all = pre ++ fr :: (s' ++ u) := by rw [hall]; simp
     rw [← hall'] at h1 h2
     -- the whole frame lies below P, hence is untouched
     have hbelow : endOff pre 0 + 8 + fr.body.length ≤ P := by
       rw [← hP, endOff_append]; simp only [endOff]
       exact endOff_mono s' _
-    have hh : readAt c (endOff pre 0) 8 = C.hdr fr.body.length :=
+    have hh : readAt c (endOff pre 0) 8 = fr.hd :=
       (readAt_ext c _ _ _ (fun i hi => hcr.1 _ (by omega))).trans h1
     have hb : readAt c (endOff pre 0 + 8) fr.body.length = fr.body :=
       (readAt_ext c _ _ _ (fun i hi => hcr.1 _ (by omega))).trans h2
     cases fuel with
     | zero => simp at hf
     | succ fuel =>
-    rw [decode_intact C c fuel (endOff pre 0) st st' fr hfr.1 hh hb hv]
+    have hle : endOff pre 0 + 8 + fr.body.length ≤ endOff all 0 := by
+      rw [hall', endOff_append]; simp only [endOff]; exact endOff_mono (s' ++ u) _
+    rw [decode_intact C c size fuel (endOff pre 0) st st' fr (by omega) hfr.2.2 hh hb hv]
     have := ih (pre ++ [fr]) st' fuel (by rw [hall]; simp) (by rw [← hP]; simp) hch' (by simp at hf ⊢; omega)
+      (fun stu h => hnc stu ⟨st', hv, h⟩)
     rw [endOff_append] at this
     simp only [endOff] at this
     obtain ⟨p, rest, e1, e2, e3, e4⟩ := this
